@@ -176,6 +176,14 @@ def select_cases(nw=2):
     out.append(select_case([tmo(0), recv()], [I(1)], name="sel_timeout0_first", nw=nw))
     out.append(select_case([aw(2), recv(acc=[I(2)]), tmo(3)], [I(1)], extra_after=[I(2)], name="sel_mixed3", nw=nw, maxtick=3))
     out[-1]["large"] = True
+    # a BUILTIN as a receive source (type-only, never applied) written before other receive sources: each
+    # receive source has its own cursor (seeded change C05-2: a builtin source was scanned but not counted, so
+    # the source after it shared its cursor and never saw the messages the builtin had skipped)
+    out.append(select_case([recv(("tup",), body="builtin"), recv()], [I(1)], name="sel_builtin_then_type", nw=nw))
+    out.append(select_case([recv(("tup",), body="builtin"), recv(acc=[I(2)]), tmo(1)], [I(1), I(2)],
+                           name="sel_builtin_filter_timeout", nw=nw, maxtick=1))
+    out.append(select_case([recv(acc=[I(9)]), recv(("tup",), body="builtin"), recv()], [I(1), T(I(3), I(4))],
+                           name="sel_filter_builtin_type", nw=nw))
     # failing await target
     out.append(select_case([aw(3), recv()], [], name="sel_await_failing", nw=nw))
     out.append(select_case([recv(), aw(3)], [I(1)], name="sel_recv_before_failing", nw=nw))
@@ -237,7 +245,7 @@ def all_families(nws=(1, 2, 3)):
         out += failure_cases(nw)
         out += [request_reply(nw, 1), request_reply(nw, 2), message_during_spawn(nw), send_to_finished(nw), filter_fails(nw),
                 abandoned_await(nw), abandoned_await_msg(nw), fail_multi_worker_select(nw), fail_already_failed_multi(nw),
-                shared_target(nw), shared_target(nw, True), burst(40, nw), reawait(nw, True), reawait(nw, False)]
+                shared_target(nw), shared_target(nw, True), shared_failing_target(nw), burst(40, nw), reawait(nw, True), reawait(nw, False)]
         out += heap_cases(nw)
         out += [bin_final_send(nw), bin_final_send_tuple(nw)]
         out += session_cases(nw)
@@ -684,6 +692,16 @@ def fail_already_failed_multi(nw=2):
                [select(1, recv(("bin",))), ret(OKE)],
                [select(1, tmo(2)), ret(c(I(1)))]]
     return meta(scenario("fail_already_failed_multi_w%d" % nw, scripts, nw=nw, maxtick=2), False, False, ["C15", "C05"])
+
+
+def shared_failing_target(nw=2):
+    # several processes (on different workers) await ONE target that then fails: every one of them must fail
+    # (seeded change C15-2: only the first awaiter of a pending target was registered, the others hung)
+    scripts = [[spawn(1, 2), spawn(2, 3, r(1)), spawn(3, 3, r(1)), spawn(4, 3, r(1)), send(1, c(I(1))),
+                select(5, aw(2)), ret(r(5))],
+               [select(1, recv()), fail()],
+               [select(2, aw(1)), ret(r(2))]]
+    return meta(scenario("shared_failing_target_w%d" % nw, scripts, nw=nw, maxpid=5), False, True, ["C15", "C03"], large=True)
 
 
 def shared_target(nw=2, bin_result=False):
